@@ -6,6 +6,7 @@ import (
 	"verif/lib/chainsim"
 	"verif/lib/envs"
 	"verif/lib/ev"
+	"verif/lib/kvsc"
 	"verif/lib/world"
 )
 
@@ -77,9 +78,12 @@ func c06(run *ev.Run) {
 // (path lineage; and one cache shared by every fork the worker executes) against the cold trie.
 func c07chain(run *ev.Run) {
 	w := world.New(world.Options{})
-	acts := governanceAlphabet(w)
-	e := &chainsim.Explorer{Run: run, W: w, Actions: acts, Depth: run.Pick(2, 3), Budget: time.Duration(run.Pick(50, 780)) * time.Second}
-	d := &chainsim.Differential{E: e, Prop: "C07", WarmLineage: true, KeyPrefix: "C07:chain",
+	kvsc.Register()
+	acts := append(kvCache(w), governanceAlphabet(w)[:9]...)
+	// start states: genesis, and a state where the key exists two blocks up and the block in between did not touch it
+	roots := [][]chainsim.Action{nil, {kv(w, "c0", "rmw", kget("a"), kput("a", "1")), governanceAlphabet(w)[0]}}
+	e := &chainsim.Explorer{Run: run, W: w, Actions: acts, Roots: roots, Depth: run.Pick(3, 4), Budget: time.Duration(run.Pick(50, 780)) * time.Second}
+	d := &chainsim.Differential{E: e, Prop: "C07", WarmLineage: true, KeyPrefix: "C07:chain", SharedPasses: 2, ShardDepth: 1,
 		Envs: envs.Cache}
 	run.Rule = "every action sequence up to the depth bound over settings updates (successful, failing late after mutating the value returned by a read) and readers of the cached settings nodes; each transition executed with a cold cache (trie only), with the cache warmed by exactly the path's own blocks, and with one cache shared by all forks explored by the worker; outcomes must be identical"
 	run.Assumptions = []string{"cacheable entity types reached: minersc GlobalNode, storagesc Config, settings nodes; partitions/allocation/miner-node entities are covered by the scenario binaries' own cache parts when present"}
